@@ -371,6 +371,38 @@ def run(unit):
                     exp = 'ok' if e_ == u_ else 'TypeError'
                     if got != exp:
                         r.violation('narrowing a bound variable to the element type does not follow the intersection', {'op': 'expr-cast', 'node': 'quantifier', 'a': e_, 'b': u_}, f'forall i in {{{tok}}}: <@i used as {u_}>: expected {exp}, got {got}', size=2)
+                    # the same use further down: inside the body of one or two nested quantifiers (either kind), under a
+                    # connective, and with a domain of two kinds of members (the element type is their union) or a range
+                    def J(n):
+                        return A.HplBinaryOperator('>', A.HplVarReference('@' + n), A.HplLiteral('0', 0))
+
+                    places = {
+                        'under and': lambda u: A.HplBinaryOperator('and', A.HplLiteral('True', True), u),
+                        'in a nested exists': lambda u: A.HplQuantifier('exists', 'j', A.HplSet((A.HplLiteral('3', 3),)), A.HplBinaryOperator('and', u, J('j'))),
+                        'in a nested forall': lambda u: A.HplQuantifier('forall', 'j', A.HplRange(A.HplLiteral('0', 0), A.HplLiteral('3', 3)), A.HplBinaryOperator('or', J('j'), u)),
+                        'two quantifiers down': lambda u: A.HplQuantifier('exists', 'j', A.HplSet((A.HplLiteral('3', 3),)), A.HplBinaryOperator('and', J('j'), A.HplQuantifier('forall', 'k', A.HplSet((A.HplLiteral('4', 4),)), A.HplBinaryOperator('implies', J('k'), u)))),
+                    }
+                    doms = {e_: lambda: A.HplSet((A.HplLiteral(tok, val),))}
+                    for e2, (tok2, val2) in lits.items():
+                        if e2 != e_:
+                            doms[e_ + '|' + e2] = lambda tok2=tok2, val2=val2: A.HplSet((A.HplLiteral(tok, val), A.HplLiteral(tok2, val2)))
+                    if e_ == 'NUMBER':
+                        doms['NUMBER (range)'] = lambda: A.HplRange(A.HplLiteral('0', 0), A.HplLiteral('2', 2))
+                    for dname, dom in doms.items():
+                        for pname_, place in places.items():
+                            for q_ in ('forall', 'exists'):
+                                r.count('evaluations')
+                                try:
+                                    A.HplQuantifier(q_, 'i', dom(), place(use(A.HplVarReference('@i'))))
+                                    got2 = 'ok'
+                                except TypeError:
+                                    got2 = 'TypeError'
+                                except Exception as e:  # noqa: BLE001
+                                    got2 = 'raised ' + type(e).__name__
+                                exp2 = 'ok' if u_ in dname.replace(' (range)', '').split('|') else 'TypeError'
+                                if got2 != exp2:
+                                    r.violation('narrowing a bound variable to the element type does not follow the intersection', {'op': 'expr-cast', 'node': 'quantifier', 'a': dname, 'b': u_},
+                                                f'{q_} i in <{dname}>: <@i used as {u_} {pname_}>: expected {exp2}, got {got2}', size=3)
                     mt = HT.MessageType('M', {'fld': tokens[e_]}, {})
                     prop = A.HplProperty(A.HplScope.globally(), A.HplPattern.absence(A.HplSimpleEvent.publish('t', predicate=A.HplPredicateExpression(use(A.HplFieldAccess(A.HplThisMessage(), 'fld'))))))
                     try:
@@ -541,7 +573,7 @@ def describe(tier):
         'rule': 'all 128 type sets; every ordered pair (cast, can_be, union); the seven can_be_* and derived members'
         + '; every triple for associativity / union of three; 24 x 24 pairs of named members, complements and unions each cast in a fresh interpreter (nothing materialised beforehand); long families (all non-empty subsets of every 2-4 base types, chains) for union'
         + '; union over 12 container kinds (list, tuple, iterator, generator, set, frozenset, dict, dict views, deque, reversed, map) x 128 sets x 4 family shapes'
-        + '; HplExpression.cast and can_be on field / variable / index nodes carrying every type set such a node can carry x all 128 targets; narrowing through 27 operand slots of the constructors (unary and binary operators of each class, accessors, function arguments, range bounds, set members, the container of `in`, quantifier domain and body: the stored operand must carry the intersection), a bound variable and a schema check; the two operands of = / != over every pair of sets of primitives; three occurrences of one reference in a predicate over every triple'
+        + '; HplExpression.cast and can_be on field / variable / index nodes carrying every type set such a node can carry x all 128 targets; narrowing through 27 operand slots of the constructors (unary and binary operators of each class, accessors, function arguments, range bounds, set members, the container of `in`, quantifier domain and body: the stored operand must carry the intersection), a bound variable (used directly, under a connective, one and two nested quantifiers down; domains of one or two kinds of members, and ranges) and a schema check; the two operands of = / != over every pair of sets of primitives; three occurrences of one reference in a predicate over every triple'
         + '. A state is one tuple of type sets; a transition one call of the real DataType API; non-trivial = every tuple (all are distinct).',
         'bounds': {'type_sets': 128, 'tuple_arity': 3},
         'exhaustive': True,
